@@ -124,8 +124,18 @@ impl CoreRule for CustomCoreRule {
     }
 }
 
+// core rule: reverses every child list, so that later core rules meet the nodes out of source order (seed C15-7: a
+// position look-up that assumes it is asked in increasing offset order). Runs before the source-position rule.
+pub struct ReverseRule;
+impl CoreRule for ReverseRule {
+    fn run(root: &mut Node, _: &MarkdownIt) {
+        root.walk_mut(|node, _| { node.children.reverse(); });
+    }
+}
+
 pub fn add_custom(md: &mut MarkdownIt, c: char) {
     match c {
+        'V' => { md.add_rule::<ReverseRule>().before::<markdown_it::plugins::sourcepos::SyntaxPosRule>(); }
         '1' => { md.block.add_rule::<CustomBlockA>(); }
         '2' => { md.block.add_rule::<CustomBlockB>(); }
         '3' => { md.inline.add_rule::<CustomInlineLetter>(); }
